@@ -149,11 +149,13 @@ public:
   };
   void SetIdentity(const trace_api::SpanContext &c, trace_api::SpanId p) noexcept override
   {
+    hz::HarnessCode hc_;
     Guard g(this);
     data.SetIdentity(c, p);
   }
   void SetAttribute(nostd::string_view k, const common::AttributeValue &v) noexcept override
   {
+    hz::HarnessCode hc_;
     Guard g(this);
     data.SetAttribute(k, v);
     vsim::yield_cs();
@@ -162,55 +164,65 @@ public:
                 common::SystemTimestamp ts,
                 const common::KeyValueIterable &a) noexcept override
   {
+    hz::HarnessCode hc_;
     Guard g(this);
     data.AddEvent(n, ts, a);
     vsim::yield_cs();
   }
   void AddLink(const trace_api::SpanContext &c, const common::KeyValueIterable &a) noexcept override
   {
+    hz::HarnessCode hc_;
     Guard g(this);
     data.AddLink(c, a);
   }
   void SetStatus(trace_api::StatusCode c, nostd::string_view d) noexcept override
   {
+    hz::HarnessCode hc_;
     Guard g(this);
     data.SetStatus(c, d);
     vsim::yield_cs();
   }
   void SetName(nostd::string_view n) noexcept override
   {
+    hz::HarnessCode hc_;
     Guard g(this);
     data.SetName(n);
     vsim::yield_cs();
   }
   void SetTraceFlags(trace_api::TraceFlags f) noexcept override
   {
+    hz::HarnessCode hc_;
     Guard g(this);
     data.SetTraceFlags(f);
   }
   void SetSpanKind(trace_api::SpanKind k) noexcept override
   {
+    hz::HarnessCode hc_;
     Guard g(this);
     data.SetSpanKind(k);
   }
   void SetResource(const Resource &r) noexcept override
   {
+    hz::HarnessCode hc_;
     Guard g(this);
     data.SetResource(r);
   }
   void SetStartTime(common::SystemTimestamp t) noexcept override
   {
+    hz::HarnessCode hc_;
     Guard g(this);
     data.SetStartTime(t);
   }
   void SetDuration(std::chrono::nanoseconds d) noexcept override
   {
+    hz::HarnessCode hc_;
     Guard g(this);
     data.SetDuration(d);
     vsim::yield_cs();
   }
   void SetInstrumentationScope(const sdktrace::InstrumentationScope &s) noexcept override
   {
+    hz::HarnessCode hc_;
     Guard g(this);
     data.SetInstrumentationScope(s);
   }
@@ -232,6 +244,7 @@ public:
   explicit CaptureExporter(int idx) : idx_(idx) {}
   std::unique_ptr<sdktrace::Recordable> MakeRecordable() noexcept override
   {
+    hz::HarnessCode hc_;
     if (idx_ == 0)
       return std::unique_ptr<sdktrace::Recordable>(new YieldingRecordable);
     return std::unique_ptr<sdktrace::Recordable>(new sdktrace::SpanData);
@@ -239,6 +252,7 @@ public:
   sdkcommon::ExportResult Export(
       const nostd::span<std::unique_ptr<sdktrace::Recordable>> &spans) noexcept override
   {
+    hz::HarnessCode hc_;
     for (auto &r : spans)
     {
       const sdktrace::SpanData *sd =
@@ -250,8 +264,8 @@ public:
     vsim::yield();
     return sdkcommon::ExportResult::kSuccess;
   }
-  bool ForceFlush(std::chrono::microseconds) noexcept override { return true; }
-  bool Shutdown(std::chrono::microseconds) noexcept override { return true; }
+  bool ForceFlush(std::chrono::microseconds) noexcept override { hz::HarnessCode hc_; return true; }
+  bool Shutdown(std::chrono::microseconds) noexcept override { hz::HarnessCode hc_; return true; }
 
 private:
   int idx_;
@@ -765,6 +779,7 @@ void check(const Case &c, const vsim::RunResult &)
 void generate(const std::string &, Rng &wl, Rng &fl, Case &c)
 {
   vsim::SimKnobs sk;
+  sk.allow_call_points = true;
   sk.allow_cv_spurious = true;
   sk.faults_on         = fl.chance(0.5);
   sk.typical_len       = 500;
